@@ -301,3 +301,70 @@ def guarded_any(cfg: CFG, at: Atomizer, node: Node, alternatives, tracker=None) 
     if not edges:
         return False
     return node not in cfg.reach([cfg.entry], blocked_edges=edges, tracker=tracker)
+
+
+class AtomTracker:
+    """Keeps the truth value of selected atoms consistent along a path (the same
+    expression tested twice - e.g. by consecutive match cases - gets the same
+    answer unless its subject is stored in between)."""
+
+    def __init__(self, atomizer: Atomizer, subjects):
+        self.at = atomizer
+        self.subjects = set(subjects)
+        self._cache: dict[int, Atom | None] = {}
+
+    def initial(self):
+        return frozenset()
+
+    def step(self, n: Node, label: str, st):
+        if n.kind == "stmt" and label not in ("exc", "raise") and st:
+            killed = set()
+            for t in n.stores():
+                d = ast.unparse(t)
+                for (s, o, v, tr) in st:
+                    if s == d or s.startswith(d + "."):
+                        killed.add((s, o, v, tr))
+            if killed:
+                st = frozenset(x for x in st if x not in killed)
+            return st
+        if n.kind == "test" and label in ("T", "F"):
+            if n.id not in self._cache:
+                self._cache[n.id] = self.at.node_atom(n)
+            a = self._cache[n.id]
+            if a is None or a.subject not in self.subjects:
+                return st
+            try:
+                hash(a.value)
+            except TypeError:
+                return st
+            truth = (label == "T") ^ a.flip
+            if (a.subject, a.op, a.value, not truth) in st:
+                return None
+            # x == A true excludes x == B true
+            if a.op == "==" and truth:
+                for (s, o, v, tr) in st:
+                    if s == a.subject and o == "==" and tr and v != a.value:
+                        return None
+            if (a.subject, a.op, a.value, truth) in st:
+                return st
+            return st | {(a.subject, a.op, a.value, truth)}
+        return st
+
+
+class ComboTracker:
+    """Product of several trackers."""
+
+    def __init__(self, *trackers):
+        self.trackers = trackers
+
+    def initial(self):
+        return tuple(t.initial() for t in self.trackers)
+
+    def step(self, n, label, st):
+        out = []
+        for t, s in zip(self.trackers, st):
+            s2 = t.step(n, label, s)
+            if s2 is None:
+                return None
+            out.append(s2)
+        return tuple(out)
